@@ -1514,6 +1514,56 @@ func apiCheckSelect(t *testing.T) {
 	rec(nil, 0)
 }
 
+// refBigDocs: documents with hundreds of containers (work lists, buffers and pools beyond their initial sizes)
+func refBigDocs() []interface{} {
+	var wide []interface{}
+	for i := 0; i < 140; i++ {
+		wide = append(wide, map[string]interface{}{"a": map[string]interface{}{"b": float64(i), "a": []interface{}{float64(i), float64(-i)}}, "b": float64(i % 3)})
+	}
+	var deep interface{} = map[string]interface{}{"a": 0.0, "b": 2.0}
+	for i := 1; i < 40; i++ {
+		deep = map[string]interface{}{"a": deep, "b": []interface{}{float64(i), map[string]interface{}{"a": float64(i)}}, "c": float64(i)}
+	}
+	obj := map[string]interface{}{}
+	for i := 0; i < 150; i++ {
+		obj[fmt.Sprintf("k%03d", i)] = map[string]interface{}{"a": float64(i), "b": []interface{}{float64(i)}}
+	}
+	return []interface{}{wide, deep, obj}
+}
+
+// apiCheckBigDocs: one- and two-step paths of the C01 fragment on the large documents against the reference evaluator
+func apiCheckBigDocs(t *testing.T) {
+	pool := refPool()
+	var paths [][]refStep
+	for _, a := range pool {
+		paths = append(paths, []refStep{a})
+		for bi, b := range pool {
+			if ((a.rec || b.rec) && bi%3 == 0) || apiThorough {
+				paths = append(paths, []refStep{a, b})
+			}
+		}
+	}
+	for di, doc := range refBigDocs() {
+		for _, steps := range paths {
+			path := refRender(steps)
+			want := refEval(steps, doc)
+			apiCount()
+			got, err := Retrieve(path, doc)
+			if (len(want) == 0) != (err != nil) || (err == nil && apiSnapshot(got) != apiSnapshot(want)) {
+				g, w := apiSnapshot(got), apiSnapshot(want)
+				if len(g) > 300 {
+					g = g[:300] + "..."
+				}
+				if len(w) > 300 {
+					w = w[:300] + "..."
+				}
+				t.Errorf("REPRODUCED: %q on large document %d: Retrieve gives %s, %v; the step-by-step definition gives %s", path, di, g, err, w)
+				return
+			}
+		}
+	}
+}
+
 // C08: P followed by Q equals Q applied to each result of P (three retrievals, no oracle)
 func apiCheckCompose(t *testing.T) {
 	pool := refPool()
@@ -3495,8 +3545,14 @@ func TestVerifReplay(t *testing.T) {
 		apiCheckParseIndependent(t)
 	case "C01", "C07":
 		apiCheckSelect(t)
+		if !t.Failed() {
+			apiCheckBigDocs(t)
+		}
 	case "C08":
 		apiCheckCompose(t)
+		if !t.Failed() {
+			apiCheckBigDocs(t)
+		}
 	case "C16":
 		apiCheckKeys(t)
 	case "C18":
